@@ -6,6 +6,7 @@ leaves gap sizes that differ by at most one — for every number of gaps and eve
 -/
 import RosedVerif.Model.JustifyLemmas
 import RosedVerif.Model.InstAFacts
+import RosedVerif.Model.AlignRefine
 namespace RosedVerif.Props
 open RosedVerif
 
@@ -30,6 +31,16 @@ theorem C12_exact_width {α : Type} [DecidableEq α] (cx : Ctx α) (ws : List (L
 theorem C12_words {α : Type} [DecidableEq α] (cx : Ctx α) (ws : List (List α)) (extra : List Nat)
     (h : ∀ w ∈ ws, cx.sp ∉ w) : (interleave cx ws extra).filter (fun a => a != cx.sp) = ws.flatten :=
   interleave_words cx ws extra h
+
+/-- **C12, per line, at cluster level**: with c the space-collapsed line — if c has no space or is already
+at least w wide the result is c; otherwise the result is exactly w wide, has the same words in order,
+and is the words interleaved with gaps whose sizes differ by at most one (leading and trailing runs
+count as gaps, as in the code) -/
+theorem C12_line {α : Type} [DecidableEq α] (cx : Ctx α) (htriv : ∀ s, cx.ends s = List.range' 1 s.length)
+    (hsp : cx.isSpace cx.sp = true) (hnl : cx.isSpace cx.nl = true) (line : List α) (w : Int) :
+    ∃ r, justifyLine cx line w = .ok r ∧
+      JustifyPost cx (Spec.collapse ⟨cx.isSpace, cx.sp, cx.hy⟩ line) w r :=
+  justifyLine_triv_nl cx htriv hsp hnl line w _ rfl
 
 /-- JustifyLine on arbitrary code-point text returns normally -/
 theorem C12_total (text : List Int) (w : Int) : ∃ r, justifyLine cxA text w = .ok r :=
